@@ -21,7 +21,6 @@ from vq.spec.cal import mdays
 from vq.spec.wf import wf_time, key_time, dt_key
 from vq import wfgen as W
 
-W.install_int_stub()
 
 SPEC = json.loads(os.environ.get("VQ_SPEC", "null")) or {
     "rule": "ruleDateTOD", "args": [["art", "T:year,month,day"], ["art", "T:hour,minute"]],
@@ -134,6 +133,9 @@ def _ts(p):
             d = TS_DAYS[k]
     return datetime(CELL_Y, CELL_M, d, p[TS_SLOTS[1]], p[TS_SLOTS[2]], p[TS_SLOTS[3]])
 NP = len(RANGES)
+HAS_STUB = any(k == "rm" for k, _ in SPEC["args"])
+if HAS_STUB and not RULE.startswith("@"):
+    assert not W.uses_int_as_type(REG[RULE][0].__closure__[0].cell_contents), "rule uses `int` as a type: the group stub would change its behaviour"
 assert NP <= NPARAM, "too many parameters: %d" % NP
 
 
@@ -268,7 +270,11 @@ def run_step(p):
     ts = _ts(p)
     before = [snap(a) for a in args] if "frame" in CLAUSES else None
     try:
-        r = WRAPPER(ts, *args)
+        if HAS_STUB:
+            with W.int_stub():
+                r = WRAPPER(ts, *args)
+        else:
+            r = WRAPPER(ts, *args)
     except Exception as e:
         if "exc" in CLAUSES:
             return False, "exception %s: %s" % (type(e).__name__, e)
@@ -286,7 +292,11 @@ def run_step(p):
             for a in args2:
                 a.mstart, a.mend = a.mstart + 40, a.mend + 40
             try:
-                r2 = WRAPPER(ts, *args2)
+                if HAS_STUB:
+                    with W.int_stub():
+                        r2 = WRAPPER(ts, *args2)
+                else:
+                    r2 = WRAPPER(ts, *args2)
             except Exception:
                 r2 = None
             if r2 is r or snap(r) != s1:
